@@ -18,7 +18,7 @@ RULE = ("Generated datasets (1-3 files, text or NetCDF) x metric with text outpu
         "table; (acc) -acc reports running sums along the axis with NaN counted as 0. Non-trivial: >=2 inputs, >=2 rows and "
         "scores not all equal; distinct by hash of (dataset dims, metric, axis, options).")
 ASSUMPTIONS = [
-    "the computed score is what verif.output.Standard._get_x_y returns on a Data object built from the same files (the metric's own correctness is C05/C06/C08)",
+    "the computed score is Metric.compute on a Data object built from the same files (the metric's own correctness is C05/C06/C08); with several events on a non-threshold axis it is the mean over the events",
     "-leg names are generated without commas; '_' stands for a space",
     "day-of-year row labels are judged for order and count only",
 ]
@@ -68,8 +68,8 @@ def metric_args(case):
             T = sorted(set(T))
             if b in model.WITHIN_TYPES and len(T) < 2:
                 return None
-        if axis != "threshold":
-            T = T[:2] if b in model.WITHIN_TYPES else T[:1]
+        if axis != "threshold" and case["nthr"] == 1:
+            T = T[:2] if b in model.WITHIN_TYPES else T[:1]      # one event; otherwise the scores of the events are averaged
         return ["-r", ",".join(repr(float(t)) for t in T), "-b", b], T, b
     if kind == "pthr":
         th = None
@@ -80,7 +80,7 @@ def metric_args(case):
         need = 2 if b in model.WITHIN_TYPES else 1
         if len(th) < need:
             return None
-        T = th if axis == "threshold" else th[:need]
+        T = th if (axis == "threshold" or case["nthr"] > 1) else th[:need]
         return ["-r", ",".join(repr(float(t)) for t in T), "-b", b], T, b
     if kind in ("q1", "q2"):
         qs = None
@@ -104,6 +104,35 @@ def metric_args(case):
 
 
 _counter = [0]
+
+
+def expected_scores(data, name, axis, T, bt):
+    """The computed scores, taken from Metric.compute (not from the output classes): one row per event on the
+    threshold axis; on every other axis the mean over the events of the per-slice scores."""
+    import numpy as np
+    import verif.axis
+    import verif.metric
+    import verif.util
+    m = verif.metric.get(name)
+    vax = verif.axis.get(axis)
+    if bt is None:
+        bt = m.default_bin_type or "above"
+    intervals = verif.util.get_intervals(bt, None if T is None else np.array(T, float))
+    F = data.num_inputs
+    if axis == "threshold":
+        y = np.zeros([len(intervals), F])
+        for f in range(F):
+            for i, iv in enumerate(intervals):
+                y[i, f] = m.compute(data, f, vax, iv)[0]
+        return y
+    n = data.get_axis_size(vax)
+    y = np.zeros([n, F])
+    for f in range(F):
+        acc = np.zeros(n)
+        for iv in intervals:
+            acc = acc + m.compute(data, f, vax, iv)
+        y[:, f] = acc / len(intervals)
+    return y
 
 
 def parse_text(lines):
@@ -177,7 +206,7 @@ def check_table(case, ctx):
     inputs = [verif.input.get_input(p) for p in paths]
     data = verif.data.Data(inputs, legend=[l.replace("_", " ") for l in legend] if legend else None)
     try:
-        y = mrun.scores(data, name, axis, thresholds=T, bin_type=bt)
+        y = expected_scores(data, name, axis, T, bt)
     except (Exception, SystemExit) as e:
         ctx.fail("C12/api-exception", sub, "%s: %s" % (type(e).__name__, e))
         return
@@ -201,6 +230,7 @@ def check_table(case, ctx):
     if axis == "threshold":
         evs = model.events(bt, T)
         exp_rows = [[ev[0]] for ev in evs]
+        ctx.label("threshold-axis")
     else:
         sl = ds.slices(axis)
         if axis in model.LOCATION_AXES:
